@@ -89,6 +89,7 @@ def _worker(job):
         t["restored"] = [gi2.sym(s) for s in list.__iter__(g2.productions[0].rhs)][:1] == \
             [[1, impl.model_grammar(gi2)[0][1][0][1]]]
         t["table"] = impl.dump_table(tab, gi2)
+        t["ids_ok"] = impl.state_ids_ok(tab)
         ann, ftab, ntab = impl.dump_annotation(tab, gi2, slr=(kind == LR_0), start_nt=start_nt)
         t["ann"], t["first"], t["nullable"] = ann, ftab, ntab
         t["n_states"] = len(tab.states)
@@ -217,6 +218,11 @@ def run(ctx):
                     st["not_restored"] += 1
                     ctx.violation("create_table left the augmented production swapped",
                                   {"grammar": r["gtext"], "kind": t["kind"]}, key="restore")
+                if not t.get("ids_ok", True):
+                    st["bad_state_ids"] = st.get("bad_state_ids", 0) + 1
+                    ctx.violation("states of the table do not carry distinct positional state ids (GLR keys "
+                                  "its graph-structured stack and the persisted table by state_id)",
+                                  {"grammar": r["gtext"], "kind": t["kind"]}, key="state-ids")
                 mcases.append((3, [r["grammar"], t["table"], start]))
                 meta.append(("struct", r, t))
                 mcases.append((8, [r["grammar"], t["table"], t["ann"], t["first"], t["nullable"], r["stop"]]))
